@@ -105,6 +105,8 @@ def gen_case(rng, tier):
         gamma = "1"
     elif r < .35:
         gamma = rng.choice(["1/5", "1/8", "1/3"])
+    elif r < .42:
+        gamma = rng.choice(["1023/1024", "1/1024", "255/256"])     # boundaries of (0,1)
     nmax = 5 if tier == "quick" else 7
     m = gen_mdp.gen_mdp(rng, nmax=nmax, amax=3, gamma=gamma, proper=(gamma == "1" and rng.random() < .7))
     if rng.random() < .4:
@@ -132,11 +134,16 @@ def gen_case(rng, tier):
                     del m["reward"]["%d,%d,%d" % (src, a, t)]
         if rng.random() < .3:
             m["init"] = [[x, str(F(p) / 2)] for x, p in m["init"]] + [[t, "1/2"]]
+    if rng.random() < .12:
+        # large reward magnitudes (values beyond +-708, where a finite stand-in for -inf would bite)
+        k = rng.choice([256, 1024])
+        m["reward"] = {kk: str(F(v) * k) for kk, v in m["reward"].items()}
     eps = rng.choice(["1/10", "1/100", "1/100000", "1/100000000"]) if rng.random() < .5 else "1/100000"
     mi = rng.choice([100000] * 8 + [1, 2, 5])
     return {"mdp": m, "max_residual": eps, "max_iterations": mi,
             "undefined_value": rng.choice(["0", "-7", "-inf", "-inf"] if gamma == "1" else ["0", "0", "-7", "-inf"]),
-            "explicit_lists": rng.random() < .3}
+            "explicit_lists": rng.random() < .3,
+            "action_order": rng.choice(["sorted", "sorted", "desc", "shuffled"]), "action_order_seed": rng.randrange(10**6)}
 
 
 def mdp_terms(case, res):
